@@ -102,7 +102,7 @@ NONE_VARS = {
 def _state_for(r, cellvars, p=50, extreme=False):
     st = {}
     for v, a in cellvars.items():
-        if v in ('t', 'd', 'sd', 'lst', 'grp') or v in NONE_VARS:
+        if v in ('t', 'u', 'd', 'sd', 'lst', 'grp') or v in NONE_VARS:
             continue
         if r.chance(p):
             if v == 'q':
@@ -175,6 +175,14 @@ def gen_case(seed):
                                'flow': r.pick([None, None, []])})
             if r.chance(12):
                 t['procs'] = []      # a compartment that holds steps only
+            ra = Rng(derive(seed, 'audit', tname))
+            if t['steps'][0]['flow'] == [] and ra.chance(50):
+                # a second step that depends on the first one and reads what it wrote
+                # (own stream; listed first half of the time: listing order is not flow order)
+                audit = {'name': 'audit' + sfx, 'out': 'u', 'src': 't', 'offset': ra.rint(1, 5),
+                         'where': t['steps'][0]['where'], 'flow': [['tally' + sfx]]}
+                t['steps'] = [audit] + t['steps'] if ra.chance(50) else t['steps'] + [audit]
+                cellvars['u'] = {'default': 0, 'divider': 'set'}
         if t['procs'] and r.chance(20):
             t['nest'] = True         # processes in a sub-compartment of the cell
             if t['steps'] and r.chance(60):
@@ -1118,7 +1126,7 @@ def _check(case, run, stats):
                     return {'vars': {v: cell.vars[v] for v in sp['declares']}}
             for sp in tmpl.get('steps', []):
                 if sp['name'] == name:
-                    return {'vars': {v: cell.vars[v] for v in ('n', sp['out'])}}
+                    return {'vars': {v: cell.vars[v] for v in (sp.get('src', 'n'), sp['out'])}}
         return None
 
     stats['known_hits'] = m.known_hits
@@ -1157,7 +1165,7 @@ def _check(case, run, stats):
         # ---- step phases (C10: each step once per phase) ----
         if k == 'STEPNU':
             if phase is None:
-                phase = {'live': live_steps(), 'ran': set()}
+                phase = {'live': live_steps(), 'ran': set(), 'applied': set()}
             p_ = tuple(ev.get('path') or ())
             if p_ in phase['ran']:
                 return [V('C10', 'C10.step-ran-twice', 'after-' + last_struct,
@@ -1165,6 +1173,16 @@ def _check(case, run, stats):
             if p_ not in phase['live']:
                 return [V('C10', 'C10.step-ran-too-early', 'plain',
                           'step %r was created during this phase and already runs in it' % (p_,), seq)]
+            # ... at its place in the flow: after the steps it depends on, with their updates applied
+            me = m.live_parties().get(p_) or {}
+            for dep in (me.get('flow') or []):
+                dp = p_[:-1] + tuple(dep)
+                if dp in phase['live'] and dp in m.live_parties() and dp not in phase['applied']:
+                    return [V('C10', 'C10.flow-order', 'after-' + last_struct,
+                              'step %r ran at %r before the update of its dependency %r was applied in this phase' % (
+                                  p_, ev['T'], dp), seq)]
+            if me.get('flow'):
+                probe('flow-dependency-checked')
             phase['ran'].add(p_)
         elif k == 'OPEND' and ev.get('exc'):
             phase = None      # the phase was cut short by an exception, judged below
@@ -1228,6 +1246,8 @@ def _check(case, run, stats):
             if not (isinstance(u, (tuple, list)) and len(u) == 2):
                 continue
             nu = pending_nu.pop((u[0], u[1]), None)
+            if nu is not None and nu['k'] == 'STEPNU' and phase is not None:
+                phase['applied'].add(tuple(nu.get('path') or ()))
             model_version[0] += 1
             if batch['T'] != ev['T']:
                 batch['T'], batch['struct'], batch['valued'] = ev['T'], set(), set()
